@@ -77,6 +77,12 @@ CLAIMED = {
   "technique": "Lean 4 proof (decision logic and append-only bookkeeping stated outright) + exact model-vs-implementation correspondence of loader/locker traffic",
   "design_ref": "4 C05",
  },
+ "C07": {
+  "text": "Lean 4 theorems on the model of the jsr: resolution pass and the package table: a pending jsr: specifier whose version manifest has the export becomes a redirect to package URL + the export's path, with the export recorded for that package (pass2_redirect, joinExport_dot_slash); a missing export yields an unknown-export error listing exactly the manifest's exports (pass2_unknown_export, export_mem_list / list_mem_export); the table maps the requirement to the selected name@version, which satisfies the requirement and joins the package's selected versions (pass1_maps_requirement, selected_satisfies, addNv_keeps_versions); mark_jsr_dep/mark_npm_dep record a requirement for exactly the package the referrer's URL belongs to; registry URL <-> name@version round-trips for every URL inside a package directory, and whatever the conversion answers the URL lies inside that package's directory with a valid version segment (urlToNv_packageUrl, urlToNv_sound, urlToNv_unique), for all strings. get_subpath is proved NOT segment-aware (kernel-checked counterexample). Tied to /repo by (A) correspondence of export lookup and URL conversion on enumerated inputs, (B) exact correspondence of a whole resolve_pending_jsr_specifiers pass (redirects, error kinds, mappings, versions by name, exports used, yanked, cache-only probes, Reporter::on_resolve events) in all three fill modes on generated flat registry worlds, (C) statement oracles on nested registry worlds.",
+  "note": "Scope of the pass model: one pass from a given table (restart and single-package reload modes included); the interleaving of passes with module loading in nested worlds is covered by the implementation-side oracles (redirect formation, unknown-export listing, mappings, exports used, per-package dependencies, graph-level version selection replayed in Reporter order), not by the model. URL joining of export values is modelled for './p' and 'p' forms only. deno_semver (requirement parsing/matching, version order) and the url crate are trusted. Open finding F21; F22 fixed in /repo.",
+  "technique": "Lean 4 proof (string-level round trip and soundness, decision logic of the pass stated outright) + exact pass correspondence + statement oracles on registry worlds",
+  "design_ref": "4 C07",
+ },
 }
 NOT_APPLICABLE = {}
 ALL = [f"C{i:02d}" for i in range(1, 21)]
